@@ -325,6 +325,7 @@ def main(argv):
     pre_notes = []
     with coq_lock():
         if hasattr(prop, 'pre_build'):
+            coq_make(targets)                    # the generated files import the model and proof files: make sure those are current first
             pre_notes = prop.pre_build() or []   # translator units: list of (name, ok, detail)
         ok_build, blog = coq_make(targets)
         proof_broken = None
